@@ -1,6 +1,6 @@
 (* PC12.v — property C12: test statistics equal their published definitions; ALPHA and betting forms agree.
    Only statements, each closed by `exact`. Model: NNM.v. *)
-From SV Require Import NNM NNM_machines NNM_ranges NNM_spec NNM_hist NNM_wf NNM_prefix NNM_defs.
+From SV Require Import NNM NNM_machines NNM_ranges NNM_spec NNM_hist NNM_wf NNM_prefix NNM_defs NNM_kaplan NNM_risk_kk NNM_kaplan_defs.
 Open Scope Q_scope.
 
 (* the model's terms (before p = min(1,1/T)) are, entry by entry, the sequential specification `spec_terms`:
@@ -58,6 +58,29 @@ Theorem C12_conversions_inverse : forall u a mu, ~ mu == 0 -> ~ u - mu == 0 ->
   eta_to_lam u (lam_to_eta u a mu) mu == a /\ lam_to_eta u (eta_to_lam u a mu) mu == a.
 Proof. intros u a mu H1 H2. split; [exact (lam_eta_lam u a mu H1 H2) | exact (eta_lam_eta u a mu H1 H2)]. Qed.
 Print Assumptions C12_conversions_inverse.
+
+(* Kaplan-Wald, Kaplan-Markov, Kaplan-Kolmogorov and the SPRT generalisation *)
+Theorem C12_kaplan_wald_def : forall g ro t xs,
+  snd (kaplan_wald g ro t xs) = map (fun T => pvr (Fin T)) (qprods 1 (map (fun x => (1 - g) * x / t + g) xs)).
+Proof. exact kaplan_wald_def. Qed.
+Print Assumptions C12_kaplan_wald_def.
+
+Theorem C12_kaplan_markov_def : forall g ro t xs,
+  0 < t + g -> Forall (fun x => 0 < x + g) xs ->
+  snd (kaplan_markov g ro t xs) = map (fun h => cap1 (Fin h)) (qprods 1 (map (fun x => (t + g) / (x + g)) xs)).
+Proof. exact kaplan_markov_def. Qed.
+Print Assumptions C12_kaplan_markov_def.
+
+Theorem C12_kaplan_kolmogorov_def : forall n t g xs,
+  kk_ok n t g (kinit) xs ->
+  kk_terms_from n (t + g) (0, 1%Z) (Fin 1) (map (fun x => x + g) xs) = map Fin (kTs n t g kinit xs).
+Proof. exact kaplan_kolmogorov_def. Qed.
+Print Assumptions C12_kaplan_kolmogorov_def.
+
+Theorem C12_wald_sprt_def : forall sqrtq eta ro N t u xs,
+  snd (wald_sprt sqrtq eta ro N t u xs) = snd (alpha_mart sqrtq (EFixed eta) N t u xs).
+Proof. exact wald_sprt_def. Qed.
+Print Assumptions C12_wald_sprt_def.
 
 Example C12_nonvacuous :
   Forall (fun m => 0 < m /\ m < 1) (mu_list (Some 10%Z) (1#2) [1; 0; (1#2); 1])
